@@ -3,6 +3,7 @@ import CanVerif.Model.DbcText
 import CanVerif.Spec.DbcRT
 import CanVerif.Model.DbcStart
 import CanVerif.Model.DbcStmt
+import CanVerif.Model.DbcAttr
 open Lean CanVerif CanVerif.Dbc
 
 namespace D05
@@ -150,6 +151,58 @@ def handle (op : String) (c i : Json) : Except String (Json × String) := do
     let p := ← J.key i "parsed"
     let verdict := if J.isNull p then "fail: the reader did not accept the SG_MUL_VAL_ line the writer produced"
       else if p == mulJ ml then "ok" else "fail: the SG_MUL_VAL_ line reads back as another binding"
+    pure (m, verdict)
+  | "def" =>
+    -- c = {"def": {"level", "name", "definition"}}; i = {"line": BA_DEF_ line of the file, "parsed": the same fields as the reader stored them}
+    let dj ← J.key c "def"
+    let lvl ← match (← J.str (← J.key dj "level")) with
+      | "ecu" => pure Level.ecu | "frame" => pure Level.frame | "signal" => pure Level.signal | "env" => pure Level.env
+      | "global" => pure Level.global | x => throw s!"bad level {x}"
+    let lvlName : Level → String
+      | .ecu => "ecu" | .frame => "frame" | .signal => "signal" | .env => "env" | .global => "global"
+    let d : DefLine := { level := lvl, name := (← J.str (← J.key dj "name")).toList, definition := (← J.str (← J.key dj "definition")).toList }
+    let line ← J.str (← J.key i "line")
+    let defJ (q : DefLine) : Json := J.obj [("level", .str (lvlName q.level)), ("name", .str (String.ofList q.name)), ("definition", .str (String.ofList q.definition))]
+    let m := J.obj [("line", .str (String.ofList (renderDef d))), ("parsed", optJ defJ (parseDef (stripWs line.toList)))]
+    let p := ← J.key i "parsed"
+    let verdict := if J.isNull p then "fail: the reader did not accept the BA_DEF_ line the writer produced"
+      else if p == defJ d then "ok" else "fail: the BA_DEF_ line reads back as another definition"
+    pure (m, verdict)
+  | "dd" =>
+    -- c = {"dd": {"name", "text": bool, "value"}}; i = {"line": BA_DEF_DEF_ line, "parsed": {"name", "value": default stored}}
+    let dj ← J.key c "dd"
+    let d : DefDefLine := { name := (← J.str (← J.key dj "name")).toList, isText := ← J.bool (← J.key dj "text"), value := (← J.str (← J.key dj "value")).toList }
+    let line ← J.str (← J.key i "line")
+    let ddJ (q : Str × Str) : Json := J.obj [("name", .str (String.ofList q.1)), ("value", .str (String.ofList q.2))]
+    let m := J.obj [("line", .str (String.ofList (renderDefDef d))), ("parsed", optJ ddJ (parseDefDef (stripWs line.toList)))]
+    let p := ← J.key i "parsed"
+    let verdict := if J.isNull p then "fail: the reader did not accept the BA_DEF_DEF_ line the writer produced"
+      else if p == ddJ (d.name, d.value) then "ok" else "fail: the BA_DEF_DEF_ line reads back as another default"
+    pure (m, verdict)
+  | "ba" =>
+    -- c = {"ba": {"attr", "target": ["global"] | ["ecu", name] | ["frame", id] | ["signal", id, name], "value": text as written}}
+    -- i = {"line": BA_ line, "parsed": the same fields, value as stored before the post-processing}
+    let bj ← J.key c "ba"
+    let tj ← J.key bj "target"
+    let kind ← J.str (← J.idx tj 0)
+    let tgt ← match kind with
+      | "global" => pure BaTarget.global
+      | "ecu" => do pure (BaTarget.ecu (← J.str (← J.idx tj 1)).toList)
+      | "frame" => do pure (BaTarget.frame (← J.nat (← J.idx tj 1)))
+      | "signal" => do pure (BaTarget.signal (← J.nat (← J.idx tj 1)) (← J.str (← J.idx tj 2)).toList)
+      | x => throw s!"bad target {x}"
+    let b : BaLine := { attr := (← J.str (← J.key bj "attr")).toList, target := tgt, value := (← J.str (← J.key bj "value")).toList }
+    let line ← J.str (← J.key i "line")
+    let tJ : BaTarget → Json
+      | .global => J.ofList [.str "global"]
+      | .ecu n => J.ofList [.str "ecu", .str (String.ofList n)]
+      | .frame id => J.ofList [.str "frame", J.ofNat id]
+      | .signal id n => J.ofList [.str "signal", J.ofNat id, .str (String.ofList n)]
+    let baJ (q : BaLine) : Json := J.obj [("attr", .str (String.ofList q.attr)), ("target", tJ q.target), ("value", .str (String.ofList q.value))]
+    let m := J.obj [("line", .str (String.ofList (renderBa b))), ("parsed", optJ baJ (parseBa (stripWs line.toList)))]
+    let p := ← J.key i "parsed"
+    let verdict := if J.isNull p then "fail: the reader did not accept the BA_ line the writer produced"
+      else if p == baJ b then "ok" else "fail: the BA_ line reads back as another attribute value"
     pure (m, verdict)
   | "file" =>
     let bs ← (← J.arr (← J.key c "blocks")).mapM blockOf
